@@ -13,7 +13,7 @@ PROFILES = {
     "log": dict(features={"arith", "log", "mem", "branch"}, nstmts=(1, 3), depth=1),
     "loop": dict(features={"arith", "loop", "storage", "mem"}, nstmts=(1, 2), depth=1),
     "call": dict(features={"arith", "call", "storage", "mem", "env"}, nstmts=(1, 3), depth=1),
-    "create": dict(features={"arith", "create", "mem", "env"}, nstmts=(1, 2), depth=1),
+    "create": dict(features={"arith", "create", "mem", "env"}, nstmts=(2, 4), depth=1),
     # profiles added after the seeded-change campaign (see DESIGN.md, section 11)
     "opgrid": dict(features=set(), nstmts=(5, 8), depth=0),
     "symtarget": dict(features={"arith", "symcall", "call", "mem"}, nstmts=(1, 3), depth=1, branchy=0.3),
